@@ -1,0 +1,139 @@
+//go:build verif
+
+package term
+
+import (
+	"os"
+	"strings"
+
+	"git.sr.ht/~rockorager/vaxis"
+	"git.sr.ht/~rockorager/vaxis/ansi"
+)
+
+// This file is only compiled with the "verif" build tag. It gives the
+// verification harness in /verif a Model without a child process or PTY, an
+// entry point equivalent to the PTY goroutine's handling of one sequence, and
+// a read-only snapshot of the emulator's state. It adds code only.
+
+// VerifNew returns a Model of the given size which has no child process. What
+// the emulator writes to its PTY (replies, forwarded input) can be read from
+// the returned file.
+func VerifNew(cols int, rows int) (*Model, *os.File, error) {
+	r, w, err := os.Pipe()
+	if err != nil {
+		return nil, nil, err
+	}
+	vt := New()
+	vt.pty = w
+	vt.parser = ansi.NewParser(strings.NewReader(""))
+	vt.resize(cols, rows)
+	return vt, r, nil
+}
+
+// VerifFeed processes one parsed sequence exactly like the PTY goroutine
+// does, and returns the events the sequence raised
+func (vt *Model) VerifFeed(seq ansi.Sequence) []vaxis.Event {
+	var evs []vaxis.Event
+	vt.mu.Lock()
+	handler := vt.eventHandler
+	vt.eventHandler = func(ev vaxis.Event) { evs = append(evs, ev) }
+	vt.mu.Unlock()
+	vt.handle(seq)
+	vt.mu.Lock()
+	vt.eventHandler = handler
+	vt.mu.Unlock()
+	return evs
+}
+
+// VerifUpdate is the bare state update (no event delivery)
+func (vt *Model) VerifUpdate(seq ansi.Sequence) {
+	vt.update(seq)
+}
+
+// VerifPendingEvents is the number of raised events not yet delivered
+func (vt *Model) VerifPendingEvents() int {
+	return len(vt.events)
+}
+
+// VerifCell is a copy of one cell of the emulator's grid
+type VerifCell struct {
+	Grapheme string
+	Width    int
+	Style    vaxis.Style
+	Wrapped  bool
+}
+
+// VerifState is a copy of the emulator's state
+type VerifState struct {
+	Cols, Rows     int
+	Active         [][]VerifCell
+	PrimaryRowLens []int
+	AltRowLens     []int
+	AltScreen      bool
+	CursorRow      int
+	CursorCol      int
+	CursorVisible  bool
+	CursorShape    int
+	Pen            vaxis.Style
+	LastCol        bool
+	MarginTop      int
+	MarginBottom   int
+	MarginLeft     int
+	MarginRight    int
+	TabStops       []int
+	Modes          map[string]bool
+	Graphics       int
+}
+
+// VerifSnapshot copies the state of the emulator
+func (vt *Model) VerifSnapshot() VerifState {
+	vt.mu.Lock()
+	defer vt.mu.Unlock()
+	s := VerifState{
+		Cols:          vt.cols,
+		Rows:          vt.rows,
+		AltScreen:     vt.mode.smcup,
+		CursorRow:     int(vt.cursor.row),
+		CursorCol:     int(vt.cursor.col),
+		CursorVisible: vt.mode.dectcem,
+		CursorShape:   int(vt.cursor.style),
+		Pen:           vt.cursor.Style,
+		LastCol:       vt.lastCol,
+		MarginTop:     int(vt.margin.top),
+		MarginBottom:  int(vt.margin.bottom),
+		MarginLeft:    int(vt.margin.left),
+		MarginRight:   int(vt.margin.right),
+		Graphics:      len(vt.graphics),
+		Modes: map[string]bool{
+			"irm": vt.mode.irm, "lnm": vt.mode.lnm, "decckm": vt.mode.decckm, "decom": vt.mode.decom,
+			"decawm": vt.mode.decawm, "dectcem": vt.mode.dectcem, "deckpam": vt.mode.deckpam,
+			"smcup": vt.mode.smcup, "paste": vt.mode.paste, "mouseButtons": vt.mode.mouseButtons,
+			"mouseDrag": vt.mode.mouseDrag, "mouseMotion": vt.mode.mouseMotion, "mouseSGR": vt.mode.mouseSGR,
+			"altScroll": vt.mode.altScroll,
+		},
+	}
+	s.Cols = vt.width()
+	s.Rows = vt.height()
+	for _, row := range vt.activeScreen {
+		out := make([]VerifCell, len(row))
+		for i, c := range row {
+			out[i] = VerifCell{Grapheme: c.Grapheme, Width: c.Width, Style: c.Style, Wrapped: c.wrapped}
+		}
+		s.Active = append(s.Active, out)
+	}
+	for _, row := range vt.primaryScreen {
+		s.PrimaryRowLens = append(s.PrimaryRowLens, len(row))
+	}
+	for _, row := range vt.altScreen {
+		s.AltRowLens = append(s.AltRowLens, len(row))
+	}
+	for _, ts := range vt.tabStop {
+		s.TabStops = append(s.TabStops, int(ts))
+	}
+	return s
+}
+
+// VerifEncodeKey is the key encoder with explicit mode arguments
+func VerifEncodeKey(key vaxis.Key, deckpam bool, decckm bool) string {
+	return encodeXterm(key, deckpam, decckm)
+}
